@@ -156,6 +156,27 @@ Theorem C01_load_save : forall f_key f_tosize f_div s bytes sec blocks pn an,
 Proof. exact load_save. Qed.
 Print Assumptions C01_load_save.
 
+(* the same with the agreement of header and parameters stated as a predicate (header_agrees: rate keys equal, point and
+   channel counts, sub-frames per frame = ratio of the rates, frame count) instead of "updateHeader is a no-op" *)
+Theorem C01_load_save_declarative : forall f_key f_tosize f_div s bytes sec blocks pn an,
+  save s = Ok bytes -> section_bytes (pro s) (groups s) = Ok (sec, blocks) ->
+  wf_hdr (hdr s) -> wf_header (hdr s) ->
+  ok_tree (groups s) -> (nds (recs_of (groups s) 1) <= 1)%nat ->
+  (forall g, In g (groups s) -> is_placeholder g = false /\ group_ok g) ->
+  blocks + 1 < 256 -> ps_start (pro s) = 1 ->
+  Forall wf_item (items_v (groups s) 1 (blocks + 1)) ->
+  header_agrees f_key f_tosize f_div (map (canon_g (blocks + 1)) (groups s)) (with_dstart (hdr s) (blocks + 1)) ->
+  (let h := with_dstart (hdr s) (blocks + 1) in let gs := map (canon_g (blocks + 1)) (groups s) in
+   h_nb_frames h = nlen (frames s) /\ nlen (frames s) <= max_frames_vec /\
+   nlen (frames s) * (1 + 4 * h_points h + h_byframe h * (1 + h_nb_analogs h)) <= 1048576 /\
+   (if 0 <? h_points h then obind (group_named gs nm_POINT) (fun g => obind (param_named g nm_LABELS) values_as_string) = Ok pn else pn = []) /\
+   (if 0 <? h_nb_analogs h then obind (group_named gs nm_ANALOG) (fun g => obind (param_named g nm_LABELS) values_as_string) = Ok an else an = []) /\
+   (frames s <> [] -> (h_scale h < 0)%Z) /\
+   Forall (uniform (N.to_nat (h_points h)) (N.to_nat (h_byframe h)) (N.to_nat (h_nb_analogs h))) (frames s)) ->
+  load f_key f_tosize f_div bytes = Ok (reloaded s blocks pn an).
+Proof. exact load_save_agrees. Qed.
+Print Assumptions C01_load_save_declarative.
+
 (* the header stage on its own *)
 Theorem C01_header_block : forall h d st rest, wf_hdr h -> wf_header h -> u16 d ->
   st_fail st = false -> st_file st = header_bytes h d ++ rest ->
@@ -212,6 +233,17 @@ Lemma demo_update_noop :
   update_header_x false s1 = ROk tt s1.
 Proof. vm_compute. reflexivity. Qed.
 Print Assumptions demo_update_noop.
+
+Lemma demo_agrees : header_agrees f_key_impl f_tosize_impl f_div_impl (map (canon_g 3) (groups demo_state)) (with_dstart (hdr demo_state) 3).
+Proof.
+  unfold header_agrees. do 6 eexists.
+  split; [vm_compute; reflexivity|]. split; [vm_compute; reflexivity|]. split; [vm_compute; reflexivity|].
+  split; [vm_compute; reflexivity|]. split; [vm_compute; reflexivity|]. split; [vm_compute; reflexivity|].
+  split; [vm_compute; discriminate|]. split.
+  - right. do 2 eexists. split; [vm_compute; reflexivity|]. split; [vm_compute; discriminate|]. split; [vm_compute; reflexivity|]. vm_compute. reflexivity.
+  - split; [vm_compute; reflexivity|]. split; [vm_compute; reflexivity|]. split; [vm_compute; reflexivity|]. vm_compute. reflexivity.
+Qed.
+Print Assumptions demo_agrees.
 
 Lemma demo_data :
   let h := with_dstart (hdr demo_state) 3 in let gs := map (canon_g 3) (groups demo_state) in
